@@ -2,7 +2,7 @@
    StackedAreaDefinition.get_lonlats is the row-wise concatenation of the members' (list level),
    swath slicing and concatenation. *)
 From Coq Require Import Reals ZArith List Lra Lia Bool.
-From Flocq Require Import Raux.
+From Flocq Require Import Zaux Raux.
 From PR Require Import Base.Num Base.RNum Base.Slice Model.Grid Proofs.Grid_real Model.SliceArea Model.Stack
      Proofs.C10_list Proofs.C10_slice.
 Import ListNotations.
@@ -284,4 +284,28 @@ Lemma swath_concat_slice {A} (a b : list (list A)) rs cs : (0 <= sstart rs)%Z ->
 Proof.
   intros H1 H2. pose proof (stack_lonlats_data_slice rs cs [a; b] H1 H2) as E.
   unfold stack_lonlats in E. rewrite E. cbn [concat]. rewrite app_nil_r. reflexivity.
+Qed.
+
+(* ---- isclose is false for values that are far apart (used to show that the hypothesis of the
+   reversed-order theorem is satisfiable) *)
+Lemma np_atol_lt : np_atol RO < 1.
+Proof.
+  unfold np_atol. cbn [lit RO]. unfold bpow.
+  change (Z.pow_pos radix2 78) with 302231454903657293676544%Z. lra.
+Qed.
+Lemma np_rtol_lt : np_rtol RO < / 2.
+Proof.
+  unfold np_rtol. cbn [lit RO]. unfold bpow.
+  change (Z.pow_pos radix2 69) with 590295810358705651712%Z. lra.
+Qed.
+Lemma isclose_far a b : 1 + Rabs b / 2 < Rabs (a - b) -> isclose RO a b = false.
+Proof.
+  intros H. unfold isclose. cbn [leb absf sub add mul isfinite eqb RO].
+  pose proof np_atol_lt. pose proof np_rtol_lt. pose proof (Rabs_pos b).
+  assert (0 < np_atol RO) by (apply lit_pos; lia). assert (0 < np_rtol RO) by (apply lit_pos; lia).
+  assert (E1 : Rleb (Rabs (a - b)) (np_atol RO + np_rtol RO * Rabs b) = false) by (apply Rleb_false; nra).
+  assert (E2 : Reqb a b = false).
+  { unfold Reqb. destruct (Req_EM_T a b) as [->|]; [|reflexivity].
+    replace (b - b) with 0 in H by lra. rewrite Rabs_R0 in H. lra. }
+  rewrite E1, E2. reflexivity.
 Qed.
